@@ -32,16 +32,23 @@ def scratch_root() -> str:
 
 
 class CaseDir:
-    """One temp directory per case, removed on exit."""
+    """One directory per case, removed on exit.  A worker process uses the SAME path (and the generator the same file names) for all the
+    cases it handles, as a user does who profiles again into the same folder within one session: anything the library remembers per path or
+    per class across TraceAnalysis objects then meets different file contents."""
+    _depth = 0
 
     def __init__(self, tag: str = "case"):
         self.tag = tag
 
     def __enter__(self) -> str:
-        self.path = tempfile.mkdtemp(prefix=self.tag + "-", dir=scratch_root())
+        CaseDir._depth += 1
+        self.path = os.path.join(scratch_root(), f"{self.tag}-w{os.getpid()}-{CaseDir._depth}")
+        shutil.rmtree(self.path, ignore_errors=True)
+        os.makedirs(self.path)
         return self.path
 
     def __exit__(self, *a) -> None:
+        CaseDir._depth -= 1
         shutil.rmtree(self.path, ignore_errors=True)
 
 
